@@ -147,7 +147,7 @@ def main():
     for msg in tie: broken.append("model tie: " + msg)
     run.cov["obligations"] += 1
     if not tie: run.cov["discharged"] += 1
-    run.cov["model_tie"] = {"functions_compared": len([n for n in facts.get("shapes", {}) if pid in shapes.props_for(n) and not shapes.WHOLE.match(n)]), "changed": tie}
+    run.cov["model_tie"] = {"functions_compared": len([n for n in facts.get("shapes", {}) if pid in shapes.props_for(n) and not shapes.WHOLE.match(n.split("#")[0])]), "changed": tie}
     model = os.path.join(vlib.LEAN, ".lake", "build", "bin", "skinny_model")
     spec = os.path.join(vlib.LEAN, ".lake", "build", "bin", "skinny_spec")
     model_ok = os.path.exists(model) and os.path.exists(spec)
